@@ -5,6 +5,9 @@ no unification failure is expected; the presentation order is what varies."""
 from simdag.core.tape import Tape
 
 SCAL = ["x", "y", "z", "u", "v", "<p>g", "<p>h", "i", "j"]
+# local names whose family is drawn *per phase*: the same name is a scalar in one phase and a flag or a
+# user type in another (per-phase tables must be independent)
+POLY = ["q", "r2"]
 BOOL = ["b1", "b2", "<p>flag"]
 ARR = ["a", "arr", "<p>A"]
 UT = ["k", "k2", "w", "<state>y", "<state>w"]
@@ -37,6 +40,16 @@ def adversarial(tape):
         with tape.span("kphase"):
             with CodeBuilder(name) as cb:
                 n = 3 + tape.draw(12, "nstmts")
+                for pn in POLY:
+                    fam = tape.draw(4, "polyfam")
+                    if fam == 0:
+                        cb(pn, "2.5")
+                    elif fam == 1:
+                        cb(pn, "<t> < 1")
+                    elif fam == 2:
+                        cb(pn, "<func>f(<t>, <state>y)")
+                    if fam != 3 and tape.chance(0.5, "polyuse"):
+                        cb("%s_copy" % pn, pn)
                 # the anchors first (presentation order is permuted later anyway)
                 cb("<state>y", "<state>y + <dt>*<func>f(<t>, <state>y)")
                 for _ in range(n):
